@@ -37,7 +37,7 @@ def pixel2world_single_axis(wcs, *pixel, world_axis=None):
         raise ValueError("world_axis needs to be set")
 
     if np.size(pixel[0]) == 0:
-        return np.array([], dtype=float)
+        return np.zeros(np.shape(pixel[0]), dtype=float)
 
     original_shape = pixel[0].shape
     pixel_new = []
@@ -94,7 +94,7 @@ def world2pixel_single_axis(wcs, *world, pixel_axis=None):
         raise ValueError("pixel_axis needs to be set")
 
     if np.size(world[0]) == 0:
-        return np.array([], dtype=float)
+        return np.zeros(np.shape(world[0]), dtype=float)
 
     original_shape = world[0].shape
     world_new = []
